@@ -37,6 +37,17 @@ def ensure_shims():
         return True
 
 
+class NS(object):
+    """Attribute bag used as a fake `self` (types.SimpleNamespace reprs its symbolic fields, which
+    breaks under CrossHair when real code formats `%r` of self eagerly)."""
+
+    def __init__(self, **kw):
+        self.__dict__.update(kw)
+
+    def __repr__(self):
+        return "<NS>"
+
+
 NOTES = []      # free-text environment notes (stubs installed), reported in evidence
 CUTS = []       # source statements removed by strip_logs: dicts(file, line, src)
 ENCODED = {}    # qualified name -> sha256 of current source text
@@ -114,8 +125,37 @@ class _Stripper(ast.NodeTransformer):
         return node
 
 
-def strip_logs(fn, drop_decorators=("log_call_deferred",), extra_globals=None):
-    """Return fn recompiled from its *current* source with bare logging statements removed."""
+class Joiner(object):
+    """Stand-in for the literal b"" in `b"".join(parts)`: concatenates ProvBufs."""
+
+    def join(self, parts):
+        out = ProvBuf()
+        for p in parts:
+            out = out + p
+        return out
+
+    def __len__(self):
+        return 0
+
+
+class ZeroByte(object):
+    """Stand-in for the literal b"\\x00" in `b"\\x00" * n`: yields a ProvBuf of n zero bytes."""
+
+    def __mul__(self, n):
+        return ProvBuf.zeros(n)
+
+    __rmul__ = __mul__
+
+
+PROV_CONSTS = {b"": Joiner(), b"\x00": ZeroByte(), b"\0": ZeroByte()}
+
+
+def strip_logs(fn, drop_decorators=("log_call_deferred",), extra_globals=None, consts=None):
+    """Return fn recompiled from its *current* source with bare logging statements removed.
+
+    consts: optional {constant value: replacement object}; every occurrence of the literal in the
+    function body is replaced by the object (used to make `b"".join(...)` / `b"\\x00" * n` work on
+    provenance buffers).  Recorded as a cut."""
     raw = fn
     while hasattr(raw, "__wrapped__"):
         raw = raw.__wrapped__
@@ -145,6 +185,21 @@ def strip_logs(fn, drop_decorators=("log_call_deferred",), extra_globals=None):
     fdef.decorator_list = kept
     st = _Stripper(filename, first_line, src.splitlines())
     tree = st.visit(tree)
+    if consts:
+        cnames = {}
+
+        class _C(ast.NodeTransformer):
+            def visit_Constant(self, node):
+                for i, (k, v) in enumerate(consts.items()):
+                    if type(node.value) is type(k) and node.value == k:
+                        cnames["__verif_const_%d" % i] = v
+                        return ast.copy_location(ast.Name(id="__verif_const_%d" % i, ctx=ast.Load()), node)
+                return node
+        tree = _C().visit(tree)
+        extra_globals = dict(extra_globals or {})
+        extra_globals.update(cnames)
+        CUTS.append({"file": filename, "line": first_line,
+                     "src": "in %s: literal(s) %r replaced by provenance-buffer stand-ins" % (raw.__qualname__, sorted(map(repr, consts)))})
     ast.fix_missing_locations(tree)
     CUTS.extend(st.removed)
     encoded(raw)
@@ -154,18 +209,15 @@ def strip_logs(fn, drop_decorators=("log_call_deferred",), extra_globals=None):
         raise HarnessError("strip_logs: %s has free variables %r" % (raw.__qualname__, raw.__code__.co_freevars))
     ns = {}
     code = compile(tree, filename, "exec")
-    glb = g if extra_globals is None else _ChainGlobals(g, extra_globals)
-    exec(code, glb, ns)
+    if extra_globals:
+        # injected into the module's own namespace (process-local) so that later monkeypatching of the
+        # module by the harness is still seen by the recompiled function
+        g.update(extra_globals)
+    exec(code, g, ns)
     new = ns[fdef.name]
     new.__qualname__ = raw.__qualname__
     new.__module__ = raw.__module__
     return new
-
-
-def _ChainGlobals(g, extra):
-    d = dict(g)
-    d.update(extra)
-    return d
 
 
 def strip_method(cls, name, **kw):
